@@ -835,10 +835,11 @@ func randN(n uint64) uint64 {
 	if n <= 1 {
 		return 0
 	}
-	if n <= 1<<31 {
+	if n <= 1<<30 {
 		return uint64(s.Ch.Intn(int(n)))
 	}
-	return (uint64(s.Ch.Intn(1<<31))<<31 | uint64(s.Ch.Intn(1<<31))) % n
+	// three 30-bit draws (int is 32 bits wide in the 32-bit batch)
+	return (uint64(s.Ch.Intn(1<<30))<<60 | uint64(s.Ch.Intn(1<<30))<<30 | uint64(s.Ch.Intn(1<<30))) % n
 }
 
 func RandIntn(n int) int {
